@@ -2,6 +2,7 @@ package main
 
 import (
 	"bytes"
+	"compress/gzip"
 	"crypto/md5"
 	"encoding/base64"
 	"fmt"
@@ -151,6 +152,20 @@ func (g ggen) upload(b, n j.B, pc float64) gcs.Op {
 		if g.chance(0.7) {
 			op.Decl = []string{"none", "ok"}[g.pick(2)]
 		}
+		if g.chance(0.15) { // an object labelled contentEncoding gzip: mostly real gzip data, sometimes not
+			op.Attrs = append(op.Attrs, gcs.KV{K: "ce", V: j.S("gzip")})
+			if g.chance(0.75) {
+				plain := g.payload(120)
+				if g.chance(0.3) {
+					plain = j.B(bytes.Repeat([]byte("squeeze me "), 5+g.pick(40)))
+				}
+				var buf bytes.Buffer
+				zw := gzip.NewWriter(&buf)
+				_, _ = zw.Write(plain)
+				_ = zw.Close()
+				op.Content, op.IsGz, op.Plain = j.B(buf.Bytes()), true, j.B(plain)
+			}
+		}
 	}
 	return op
 }
@@ -296,7 +311,7 @@ func genGcsProgram(r *rand.Rand, p gcsProfile) []gcs.Op {
 			prog = append(prog, gcs.Op{Ev: "Delete", B: b, N: n, Conds: g.conds(p.pCond)})
 		case x < p.wUpload+p.wResum+p.wPatch+p.wDelete+p.wRead:
 			if g.chance(0.6) {
-				prog = append(prog, gcs.Op{Ev: "GetMedia", B: b, N: n, Form: []string{"api", "download", "public"}[g.pick(3)], Slash: g.chance(0.5)})
+				prog = append(prog, gcs.Op{Ev: "GetMedia", B: b, N: n, Form: []string{"api", "download", "public"}[g.pick(3)], Slash: g.chance(0.5), AcceptGz: g.chance(0.35)})
 			} else {
 				prog = append(prog, gcs.Op{Ev: "GetMeta", B: b, N: n, Slash: g.chance(0.5)})
 			}
